@@ -70,3 +70,25 @@ Theorem request_head_is_the_source r n :
   exists line, xrun (mk_xenv [tq_method r; tq_uri r] (tq_major r) (tq_minor r) 0) request_line_to_string_src = Some line
             /\ srun (mk_senv line (tq_headers r) 0 n) tx_request_message_src = Some (request_message r n).
 Proof. exists (request_line_string r). split; [apply request_line_string_is_the_source | apply request_message_is_the_source]. Qed.
+
+(* ---- header lines: header_field::to_header(name, value), content_length(size), chunked_encoding() ---- *)
+Theorem to_header_is_the_source name value :
+  xrun (mk_xenv [name; value] 0 0 0) hf_to_header_src = Some (to_header name value).
+Proof.
+  unfold xrun, hf_to_header_src, to_header.
+  cbn [xexec xeval nth xe_strs xe_status snd]. rewrite <- ?app_assoc; reflexivity.
+Qed.
+
+Theorem content_length_line_is_the_source n :
+  xrun (mk_xenv [] 0 0 n) hf_content_length_src = Some (content_length_line n).
+Proof.
+  unfold xrun, hf_content_length_src, content_length_line.
+  cbn [xexec xeval nth xe_strs xe_status snd]. rewrite <- ?app_assoc; reflexivity.
+Qed.
+
+Theorem chunked_encoding_line_is_the_source :
+  xrun (mk_xenv [] 0 0 0) hf_chunked_encoding_src = Some chunked_encoding_line.
+Proof.
+  unfold xrun, hf_chunked_encoding_src, chunked_encoding_line.
+  cbn [xexec xeval nth xe_strs xe_status snd]. rewrite <- ?app_assoc; reflexivity.
+Qed.
